@@ -76,6 +76,12 @@ VertBlendNoCol == [DefaultVert EXCEPT !.mb = <<Z, G1, Z, Z>>]
 VertsP == {VertPlain, VertBlend, VertBlendNoCol}
 Allowed == {[i \in 1..10 |-> IF i = 3 THEN 0 ELSE 0 - 1], [i \in 1..10 |-> i * 1000003]}
 
+\* membership IDs: members equal modulo 8 (k, k+8, k+16, k+32, k+64) with small ones, 3-6 of them, in several
+\* insertion orders (a Python set of such integers iterates in an order that depends on how it was built)
+JoinSeqs == IF Rich THEN {<<6, 38, 70, 1, 2>>, <<70, 38, 6, 2, 1>>, <<2, 70, 1, 6, 38>>, <<1, 9, 17, 33, 65, 2>>, <<65, 2, 33, 1, 17, 9>>,
+                          <<8, 16, 24>>, <<24, 16, 8>>, <<3, 11, 19, 4>>, <<19, 4, 11, 3>>, <<5, 13, 69, 133, 2>>}
+            ELSE {<<6, 38, 70, 1, 2>>, <<24, 16, 8>>}
+
 (* ---- state ----------------------------------------------------------------------- *)
 OptSet == [minimal : BOOLEAN, mb : BOOLEAN, preserve : BOOLEAN, inc : BOOLEAN]
 OptMc == [minimal : BOOLEAN, mb : BOOLEAN, preserve : {FALSE}, inc : {TRUE}]
@@ -129,6 +135,9 @@ Builder ==
             Do([op |-> "SetSolidAttr", e |-> 0, s |-> s, name |-> p[1], val |-> p[2]])
     \/ \E dummy \in {1, 2, 3} : \E e \in RealEnts, g \in GroupIds(doc) : Do([op |-> "EntJoin", e |-> e, what |-> "group", id |-> g])
     \/ \E dummy \in {1, 2, 3} : \E e \in RealEnts, g \in VisIds(doc) : Do([op |-> "EntJoin", e |-> e, what |-> "vis", id |-> g])
+    \* memberships whose IDs collide in a small hash table, in several insertion orders
+    \/ \E w \in {"group", "vis"} : \E e \in RealEnts, q \in JoinSeqs : Do([op |-> "EntJoinSeq", e |-> e, what |-> w, ids |-> q])
+    \/ \E s \in SolidIdx(0), q \in JoinSeqs : Do([op |-> "SolidJoinSeq", e |-> 0, s |-> s, ids |-> q])
     \/ \E b \in BOOLEAN : \E e \in EntIdx, c \in Corners, m \in Mats : Len(EntAt(doc, e).solids) < MaxSolids
             /\ Do([op |-> "AddPrism", e |-> e, p1 |-> c[1], p2 |-> c[2], mat |-> m, points |-> b])
     \/ \E e \in EntIdx : Len(EntAt(doc, e).solids) < MaxSolids /\ Do([op |-> "AddSolid", e |-> e])
